@@ -5,6 +5,7 @@ import (
 	"errors"
 	"fmt"
 	"math/big"
+	"sync"
 	"testing"
 
 	ige "github.com/xelaj/mtproto/internal/aes_ige"
@@ -289,6 +290,44 @@ func TestC05(t *testing.T) {
 	// classes; every raw block count 1..N once; every refused length 0..80.
 	if run.Shard == 0 {
 		t.Run("exhaustive", exhaustive)
+	}
+	t.Run("concurrent", func(t *testing.T) {
+		// the wrappers are used by sending goroutines and the receive loop at the same time
+		workers, per := 8, run.Pick(800, 8000)
+		errs := make(chan error, workers)
+		var wg sync.WaitGroup
+		for w := 0; w < workers; w++ {
+			wg.Add(1)
+			go func(w int) {
+				defer wg.Done()
+				for i := 0; i < per; i++ {
+					sd := run.Seed*1000003 + uint64(run.Shard)*7919 + uint64(w)*104729 + uint64(i)
+					var c Case
+					switch (w + i) % 3 {
+					case 0:
+						c = Case{Kind: "raw", Key: det(sd, 32), IV: det(sd+1, 32), Data: det(sd+2, 16*(1+int(sd%9)))}
+					case 1:
+						c = Case{Kind: "msg", Key: det(sd, 256), Data: det(sd+2, 1+int(sd%300)), Pad: det(sd+3, 16)}
+					default:
+						c = Case{Kind: "wrap", NN: det(sd, 32), SN: det(sd+1, 16), Data: det(sd+2, int(sd%200)), Pad: det(sd+3, 16)}
+					}
+					run.Case(true, evid.Hash("conc", c.Kind, c.Key, c.Data, c.NN), "concurrent:"+c.Kind)
+					if err := oracle(c); err != nil {
+						p := run.ViolationNamed(fmt.Sprintf("concurrent-w%d-i%d", w, i), c, "under concurrent use from 8 goroutines: "+err.Error())
+						errs <- fmt.Errorf("violation (replay %s): %v", p, err)
+						return
+					}
+				}
+			}(w)
+		}
+		wg.Wait()
+		close(errs)
+		for err := range errs {
+			t.Errorf("%v", err)
+		}
+	})
+	if t.Failed() {
+		return
 	}
 	t.Run("generated", func(t *testing.T) {
 		rapid.Check(t, func(t *rapid.T) {
